@@ -45,26 +45,34 @@ Rules (source in brackets):
     (-y/-l).  A map entry whose KEY is an alias (and everything below it) counts
     only with include_key_aliases (-Y/-l): -A "discard[s] all aliased keys and
     values (including child nodes)", -y "does not permit search traversal into
-    aliased keys".
- R3 [from-code]  Entries that exist only through a merge key are looked at iff
-    at least one alias inclusion is on; they are then ordinary entries.  The
-    merge reference itself is neither a key nor a value: never due.
+    aliased keys".  "Alias" is a fact about the document (not the first
+    occurrence in document order), not about what the search happened to walk;
+    an excluded scalar alias whose original sits below a matched key (R4) is
+    classed separately (`...-of-unvisited-anchor`) because it is borderline.
+ R3 Entries that exist only through a merge key are repeats of an anchored
+    node's children: [statement/-A] never counted under -A, [--help -l "all"]
+    ordinary entries under -l; [from-code] also looked at when just one of -Y/-y
+    is on, so there a match is tolerated but not demanded (optional).  The merge
+    reference itself is neither a key nor a value: never due [statement
+    "nothing else"; --refnames is the documented way to search reference names].
  R4 [from-code, comment at yaml_paths.py "No other matches within this node
     matter because they are already in the result"]  Without expansion a
     matched key stands for its whole subtree: everything below is optional.
  R5 [statement, --help -m]  With expansion a matched parent is replaced by
     exactly its leaf descendants that R2/R3 permit, each once.  A matched key
-    with a scalar value is its own leaf.  [from-code] a set is a leaf; an empty
-    container has no leaves (the location itself is optional).  When the value
-    of the matched key is itself an alias that R2 excludes, the help text does
-    not say whether the key match survives: everything there is optional.
- R6 [from-code]  Members of a set reached through a map key or at the root are
-    always searched (whatever -i/-k/-K says).  An aliased member is forbidden
-    under -A, due under -l, optional under -Y/-y (the documentation does not
-    say whether a member is a key or a value).  A set that is a sequence
-    ELEMENT: its members are either keys or values, so with -k (both on) a
-    matching member is due; in the other modes it is optional, and the element
-    itself is optional when values are searched.
+    with a scalar value is its own leaf.  [from-code] a set is a leaf (the set
+    and its members are both optional); an empty container has no leaves (the
+    location itself is optional).  When the value of the matched key is itself
+    an alias that R2 excludes, the help text does not say whether the key match
+    survives: everything there is optional.
+ R6 Set members: the documentation does not say whether a member is a key or a
+    value; it is one of the two, so with -k (both searched) a matching member is
+    due wherever the set sits, and in the -i / -K modes it is optional
+    [from-code: the code always searches the members of a set that hangs under
+    a map key or is the root].  An aliased member is forbidden under -A, due
+    under -l (+ -k), optional under -Y/-y.  A set that is a sequence ELEMENT is,
+    from-code, tested as if it were a scalar: the element itself is optional
+    when values are searched.
  R7 [statement "any document"]  A document that is a single scalar is a value.
 """
 from collections import namedtuple
@@ -129,6 +137,8 @@ def classify(doc_model, terms, opts):
     unvisited = set()     # anchors whose defining occurrence lies in a region the search need not walk
 
     def emit(segs, loc, status, why, tags):
+        if status == REQUIRED and "merged" in tags and not (IK and IV):
+            status = OPTIONAL                         # R3: which single option "asks" is from-code
         out.append(Expect(tuple(segs), tuple(loc), status, why, tuple(sorted(tags))))
 
     def children(node, segs, loc):
@@ -191,7 +201,7 @@ def classify(doc_model, terms, opts):
             for i, it in enumerate(node["items"]):
                 value_site(it, segs + [("idx", i)], loc + [("i", i)], set(tags), in_seq=True, keys_off=True)
         elif k == "set":
-            set_members(node, segs, loc, tags, always=True)
+            set_members(node, segs, loc, tags, always=(K and V))
         else:
             raise ValueError("search() on a non-container: %r" % (node,))
 
@@ -218,7 +228,7 @@ def classify(doc_model, terms, opts):
         if node["alias"]:
             if not IV:                                                   # R2
                 why = "aliased-value" if k == "scalar" else "aliased-value-container"
-                if node["anchor"] in unvisited:
+                if k == "scalar" and node["anchor"] in unvisited:
                     # the original sits below a matched key (R4) or an excluded entry: the
                     # statement still calls this occurrence a repeat, but it is its own class
                     why += "-of-unvisited-anchor"
@@ -269,7 +279,7 @@ def classify(doc_model, terms, opts):
             emit(segs, loc, REQUIRED, "key-match" if top else "expanded-leaf", tags)
             return
         if k == "set":                                                   # from-code: a set is a leaf
-            emit(segs, loc, REQUIRED, "expanded-leaf-set", tags)
+            emit(segs, loc, OPTIONAL, "expanded-leaf-set", tags)
             mark_below(node, segs, loc, OPTIONAL, "member-of-expanded-leaf-set", tags)
             return
         empty = not (node["entries"] if k == "map" else node["items"])
